@@ -141,6 +141,19 @@ def rand_subsets(rng, n, count):
     """qubit subsets with nesting, overlap and repetition."""
     subs = []
     parents = []
+    if n >= 3 and rng.random() < 0.45:
+        # spread: the pairs of a ring / chain (several groups), plus singles and a few nested ones
+        pairs = [tuple(sorted((i, (i + 1) % n))) for i in range(n)]
+        rng.shuffle(pairs)
+        while len(subs) < count:
+            r = rng.random()
+            if r < 0.6:
+                subs.append(rng.choice(pairs))
+            elif r < 0.85:
+                subs.append((rng.randrange(n),))
+            else:
+                subs.append(tuple(sorted(rng.sample(range(n), rng.randint(2, min(3, n))))))
+        return subs
     for _ in range(rng.randint(1, 2)):
         k = rng.randint(2, min(3, n)) if n >= 2 else 1
         parents.append(tuple(sorted(rng.sample(range(n), k))))
@@ -398,8 +411,9 @@ def corr_raw(ctx):
             fail(ctx, f"terms:{what[0]}:{shape}",
                  f"{what[2]} for terms (tag, targets) {[(t[0], t[1]) for t in terms]}; model: {what[3]}",
                  src, expected=str([(g[0], g[2]) for g in g1]), observed=str([(r[0], r[2]) for r in real]), broken=[what[1]])
-        if k < 3:
-            ctx.sample({"suite": "raw", "terms": [(t[0], list(t[1])) for t in terms], "groups": [g[0] for g in g1]})
+        if gen == "random" and len(g1) >= 2 and nested and unsorted:
+            ctx.sample({"suite": "raw", "terms (tag, targets)": [(t[0], list(t[1])) for t in terms], "groups (member ids)": [g[0] for g in g1],
+                        "merged targets": [g[2] for g in g1]}, limit=3)
     ctx.ob("C16_corr_groups", bad["groups"] == 0, "correspondence", f"{bad['groups']} disagreements" if bad["groups"] else "")
     ctx.ob("C16_corr_merge", bad["merge"] == 0, "correspondence", f"{bad['merge']} disagreements" if bad["merge"] else "")
     ctx.ob("C16_corr_coefficients", bad["coef"] == 0, "correspondence", f"{bad['coef']} disagreements" if bad["coef"] else "")
@@ -462,7 +476,7 @@ def corr_symbolic(ctx):
     lines, meta = [], []
     N = 160 if ctx.thorough else 70
     for k in range(N):
-        n = rng.randint(2, 4)
+        n = rng.choice([2, 3, 3, 4, 4, 4])
         ms, const = rand_poly(rng, n, rng.randint(2, 7), commuting=None)
         dt = rng.choice([0.1, 0.37, -0.2, 1.0])
         try:
@@ -475,7 +489,7 @@ def corr_symbolic(ctx):
         lines.append(raw_case_line("TERMS", raw, 1, 1))
         meta.append(("sym", n, ms, const, dt, h, None))
     for k in range(N // 2):
-        n = rng.randint(2, 4)
+        n = rng.choice([2, 3, 3, 4, 4, 4])
         ms0, c0 = rand_poly(rng, n, rng.randint(1, 4), commuting=None)
         ms1, c1 = rand_poly(rng, n, rng.randint(1, 5), commuting=None)
         s = rng.choice([0, 1, 2, 3, -1])  # schedule value: integer, so the coefficients are exact
@@ -554,8 +568,11 @@ def corr_symbolic(ctx):
                 bad["adiab"] += 1
                 fail(ctx, "adiabatic-circuit:gates",
                      f"AdiabaticHamiltonian({poly_src(ms0, const[0])}, {poly_src(ms1, const[1])}).circuit({dt}, t) at s={s}: {msg}", src, broken=["C16_corr_adiabatic"])
-    if meta:
-        ctx.sample({"suite": "circuit", "form": poly_src(meta[0][2], meta[0][3]) if meta[0][0] == "sym" else "adiabatic", "model_groups": [g[0] for g in parse_terms_answer(answers[0])[0]]})
+    for mt, ans in zip(meta, answers):
+        gs, qu = parse_terms_answer(ans)
+        if mt[0] == "sym" and len(gs) >= 3:
+            ctx.sample({"suite": "circuit", "form": poly_src(mt[2], mt[3]), "groups (term ids)": [g[0] for g in gs], "queue targets": [q[0] for q in qu]}, limit=5)
+            break
     ctx.ob("C16_corr_circuit", bad["sym"] == 0, "correspondence", f"{bad['sym']} disagreements" if bad["sym"] else "")
     ctx.ob("C16_corr_adiabatic", bad["adiab"] == 0, "correspondence", f"{bad['adiab']} disagreements" if bad["adiab"] else "")
 
@@ -777,6 +794,21 @@ def slope(e1, e2):
     return math.log2(e1 / e2)
 
 
+ORDER_SRC = (
+    "def observed_order(errs):\n"
+    "    # best estimate over successive halvings of dt (error terms of neighbouring orders can cancel\n"
+    "    # at one scale); halvings whose finer error is at the rounding floor do not count\n"
+    "    sl = [np.log2(a / b) for a, b in zip(errs, errs[1:]) if b >= 5e-13 and a > 0]\n"
+    "    return max(sl) if sl else float('inf')\n"
+)
+DTS_ORDER = (0.1, 0.05, 0.025, 0.0125)
+
+
+def observed_order(errs):
+    sl = [slope(a, b) for a, b in zip(errs, errs[1:]) if b >= 5e-13 and a > 0]
+    return max(sl) if sl else float("inf")
+
+
 EVOL_SRC = (
     "def run(dt, cb=False):\n"
     "    cbs = [callbacks.Norm()] if cb else []\n"
@@ -896,12 +928,11 @@ def evolution_search(ctx):
         key_kind = ("td" if td else "const") + (":dense" if dense else ":symbolic")
         ctx.case(("order", solver, dense, td, n))
         ctx.stat(f"evolution:{solver}:{key_kind}")
-        src = PRE + hsrc + f"solver = {qsolver!r}; T = {T!r}; t0 = {t0!r}\npsi = {arr_src(psi)}\nref = {arr_src(ref)}\n" + EVOL_SRC + (
-            "o1, _ = run(0.1); o2, _ = run(0.05); o4, _ = run(0.025)\n"
-            + ("e1 = pdist(o1, ref); e2 = pdist(o2, ref)\n" if solver == "trotter" else "e1 = np.abs(o1 - ref).max(); e2 = np.abs(o2 - ref).max()\n")
-            + ("e4 = pdist(o4, ref)\n" if solver == "trotter" else "e4 = np.abs(o4 - ref).max()\n") +
-            "print('errors', e1, e2, e4, 'orders', np.log2(e1 / e2), np.log2(e2 / e4), 'norm', np.linalg.norm(o2))\n"
-            f"sys.exit(0 if (e2 < 1e-11 or max(np.log2(e1 / e2), np.log2(e2 / e4)) >= {expected - 0.5}) and e2 < {0.05 ** expected * 400!r} and abs(np.linalg.norm(o2) - 1) < 1e-9 else 1)\n")
+        src = PRE + hsrc + f"solver = {qsolver!r}; T = {T!r}; t0 = {t0!r}\npsi = {arr_src(psi)}\nref = {arr_src(ref)}\n" + EVOL_SRC + ORDER_SRC + (
+            f"outs = [run(dt)[0] for dt in {DTS_ORDER!r}]\n"
+            + ("errs = [pdist(o, ref) for o in outs]\n" if solver == "trotter" else "errs = [float(np.abs(o - ref).max()) for o in outs]\n")
+            + "print('errors', errs, 'order', observed_order(errs), 'norm', np.linalg.norm(outs[1]))\n"
+            f"sys.exit(0 if observed_order(errs) >= {expected - 0.5} and errs[1] < {0.05 ** expected * 400!r} and abs(np.linalg.norm(outs[1]) - 1) < 1e-9 else 1)\n")
         try:
             env = dict(Q)
             exec(hsrc + f"solver = {qsolver!r}; T = {T!r}; t0 = {t0!r}\n", env)  # noqa: S102
@@ -911,24 +942,23 @@ def evolution_search(ctx):
             o2, _ = env["run"](0.05)
             o3, norms = env["run"](0.05, cb=True)
             o4, _ = env["run"](0.025)
+            o5, _ = env["run"](0.0125)
         except Exception as ex:  # noqa: BLE001
             ok["order"] = False
             fail(ctx, f"evolve:raises:{solver}", f"StateEvolution {solver} ({key_kind}) raises {type(ex).__name__}: {ex}", src, broken=["C16_search_order"])
             continue
         # the Trotter circuit drops the constant of the Hamiltonian: compare up to a global phase
         dist = (lambda a, b: pdist(a, b)) if solver == "trotter" else (lambda a, b: float(np.abs(a - b).max()))
-        e1, e2, e3, e4 = dist(o1, ref), dist(o2, ref), dist(o3, ref), dist(o4, ref)
-        # two estimates of the order (dt 0.1 -> 0.05 -> 0.025): error terms of neighbouring orders can
-        # cancel at one scale
-        sl = max(slope(e1, e2), slope(e2, e4))
+        e1, e2, e3, e4, e5 = dist(o1, ref), dist(o2, ref), dist(o3, ref), dist(o4, ref), dist(o5, ref)
+        sl = observed_order([e1, e2, e4, e5])
         # absolute level: a method of order p has error ~ C dt^p with C = O(1) here
         level = 0.05**expected * 400
-        if (e2 >= 1e-11 and sl < expected - 0.5) or e2 > level:
+        if sl < expected - 0.5 or e2 > level:
             ok["order"] = False
             fail(ctx, f"order:{solver}" + (":time-dependent" if td else ""),
                  f"StateEvolution(solver={qsolver!r}, {'H(t)=(1+t)H0' if td else 'constant H'}, {'dense' if dense else 'symbolic'}, n={n}, t0={t0}, T={T}): "
-                 f"error {e1:.3e} at dt=0.1, {e2:.3e} at dt=0.05, {e4:.3e} at dt=0.025 — observed order {sl:.2f}, stated order {expected}",
-                 src, expected=f"order >= {expected - 0.5}", observed=[e1, e2, e4], broken=["C16_search_order"])
+                 f"errors {e1:.3e}, {e2:.3e}, {e4:.3e}, {e5:.3e} at dt = 0.1, 0.05, 0.025, 0.0125 — observed order {sl:.2f}, stated order {expected}",
+                 src, expected=f"order >= {expected - 0.5}", observed=[e1, e2, e4, e5], broken=["C16_search_order"])
         if abs(np.linalg.norm(o2) - 1) > 1e-9 or abs(np.linalg.norm(o3) - 1) > 1e-9:
             ok["norm"] = False
             fail(ctx, f"norm:{solver}", f"final state of solver {qsolver!r} has norm {np.linalg.norm(o2)!r} / {np.linalg.norm(o3)!r} (with callbacks)", src, broken=["C16_search_norm"])
@@ -1218,30 +1248,29 @@ def adiabatic_search(ctx):
         sol = solve_ivp(lambda t, y: -1j * (((1 - t / Ttot) * H0 + (t / Ttot) * H1) @ y), (0.0, Ttot), psi0.copy(),
                         method="DOP853", rtol=1e-12, atol=1e-13)
         refp = sol.y[:, -1]
-        src = PRE + hs + (f"psi0 = np.ones({2 ** n}, dtype=complex) / 2.0\nref = {arr_src(refp)}\n"
+        src = PRE + ORDER_SRC + hs + (f"psi0 = np.ones({2 ** n}, dtype=complex) / 2.0\nref = {arr_src(refp)}\n"
                           f"run = lambda dt: models.AdiabaticEvolution(h0, h1, lambda x: x, dt, solver={solver!r})(final_time={Ttot!r}, initial_state=psi0.copy())\n"
-                          "o1 = run(0.1); o2 = run(0.05); o4 = run(0.025)\n"
-                          + ("e1 = pdist(o1, ref); e2 = pdist(o2, ref); e4 = pdist(o4, ref)\n" if (solver == "exp" and not dense)
-                             else "e1 = np.abs(o1 - ref).max(); e2 = np.abs(o2 - ref).max(); e4 = np.abs(o4 - ref).max()\n")
-                          + "print(e1, e2, e4, np.log2(e1 / e2), np.log2(e2 / e4))\n"
-                          f"sys.exit(0 if (max(np.log2(e1 / e2), np.log2(e2 / e4)) >= {expected - 0.5} or e2 < 1e-10) and abs(np.linalg.norm(o2) - 1) < 1e-9 else 1)\n")
+                          f"outs = [run(dt) for dt in {DTS_ORDER!r}]\n"
+                          + ("errs = [pdist(o, ref) for o in outs]\n" if (solver == "exp" and not dense) else "errs = [float(np.abs(o - ref).max()) for o in outs]\n")
+                          + "print(errs, observed_order(errs))\n"
+                          f"sys.exit(0 if observed_order(errs) >= {expected - 0.5} and abs(np.linalg.norm(outs[1]) - 1) < 1e-9 else 1)\n")
         ctx.case(("adiabatic-evolution", solver, dense))
         ctx.stat(f"adiabatic:evolution:{solver}")
         try:
             env = dict(Q)
             exec(hs, env)  # noqa: S102
             run = lambda dt: M.AdiabaticEvolution(env["h0"], env["h1"], lambda x: x, dt, solver=solver)(final_time=Ttot, initial_state=psi0.copy())  # noqa: E731
-            o1, o2, o4 = run(0.1), run(0.05), run(0.025)
+            o1, o2, o4, o5 = run(0.1), run(0.05), run(0.025), run(0.0125)
             # the Trotter circuit drops the constants of the Hamiltonians: up to a global phase there
             trot = solver == "exp" and not dense
-            e1, e2, e4 = (pdist(o1, refp), pdist(o2, refp), pdist(o4, refp)) if trot else (
-                np.abs(o1 - refp).max(), np.abs(o2 - refp).max(), np.abs(o4 - refp).max())
-            sl = max(slope(e1, e2), slope(e2, e4))
-            if (e2 >= 1e-10 and sl < expected - 0.5) or abs(np.linalg.norm(o2) - 1) > 1e-9:
+            errs = [pdist(o, refp) if trot else float(np.abs(o - refp).max()) for o in (o1, o2, o4, o5)]
+            e1, e2, e4 = errs[:3]
+            sl = observed_order([e if e > 3e-12 else 0.0 for e in errs])  # the reference is good to ~1e-12
+            if sl < expected - 0.5 or abs(np.linalg.norm(o2) - 1) > 1e-9:
                 ok = False
                 fail(ctx, f"order:{solver}:adiabatic" if solver != "exp" else "adiabatic:evolution:exp",
                      f"AdiabaticEvolution(solver={solver!r}, {'dense' if dense else 'symbolic'}): errors {e1:.3e} (dt=0.1), {e2:.3e} (dt=0.05), {e4:.3e} (dt=0.025) against a fine reference — order {sl:.2f}, expected {expected}; norm {np.linalg.norm(o2)!r}",
-                     src, expected=f"order >= {expected - 0.5}", observed=[e1, e2, e4], broken=["C16_search_adiabatic"])
+                     src, expected=f"order >= {expected - 0.5}", observed=errs, broken=["C16_search_adiabatic"])
         except Exception as ex:  # noqa: BLE001
             ok = False
             fail(ctx, "adiabatic:raises", f"AdiabaticEvolution {solver}: {type(ex).__name__}: {ex}", src, broken=["C16_search_adiabatic"])
